@@ -166,7 +166,7 @@ fn main() {
                 vec![star(vec![(e(), 0)])], vec![star(vec![(e(), 1), (e(), 1)]), star(vec![(e(), 0), (e(), 0)])], vec![star(vec![(BondKind::Up, 1)]), star(vec![(BondKind::Up, 0)])]];
             for g in corpus { cases.push(walk_case(&g)); bump("corpus") }
             while cases.len() < count {
-                let g = match rng.below(10) { 0..=5 => { bump("wf"); gen_wf_graph(&mut rng, 9) }
+                let g = match rng.below(10) { 0..=4 => { bump("wf"); gen_wf_graph(&mut rng, 9) } 5 => { bump("wf-large"); gen_wf_graph(&mut rng, 16) }
                     6..=8 => { let mut g = gen_wf_graph(&mut rng, 7); let m = mutate_graph(&mut rng, &mut g); bump(&format!("mutant-{}", m)); g }
                     _ => { bump("junk"); gen_junk_graph(&mut rng, 5) } };
                 cases.push(walk_case(&g))
